@@ -381,3 +381,247 @@ class Oracle:
             + list(self.rxn)
             + list(self.sur_of_out)
         )
+
+
+# =======================================================================================
+# APPENDED (second deepening round of C01 / C02 / C13).  Nothing above was changed; other checks draw from
+# gen_model with their own rng streams, so everything new lives in new functions.
+# =======================================================================================
+
+
+def all_value_names(desc: dict) -> list[int]:
+    """Every name that exists as a VALUE in the model (what a component may legally name), without `time`.
+    A surrogate's container name (s[0]) is NOT a value: only its outputs are."""
+    out = [n for n, _ in desc["par"]] + [n for n, _ in desc["var"]] + [n for n, _ in desc["dat"]]
+    out += [n for n, _, _ in desc["der"]] + [n for n, *_ in desc["rxn"]]
+    for s in desc["sur"]:
+        out += list(s[3])
+    return out
+
+
+def _fresh_from(desc: dict):
+    used = set(all_value_names(desc)) | {s[0] for s in desc["sur"]} | {n for n, *_ in desc["ro"]}
+    nxt = [max(used | {10}) + 1]
+
+    def fresh() -> int:
+        nxt[0] += 1
+        return nxt[0] - 1
+
+    return fresh
+
+
+def copy_desc(desc: dict) -> dict:
+    return {k: list(v) for k, v in desc.items()}
+
+
+def retime(rng, desc: dict, where: str) -> dict:
+    """A copy of `desc` in which `time` (name 0) is read by exactly one kind of component:
+
+    where = "sur"      only a surrogate names time (no derived quantity, reaction or coefficient does); a derived
+                       quantity and a reaction are put downstream of the surrogate's outputs
+            "coef"     only a computed stoichiometric coefficient names time
+            "data_der" only a derived quantity that also reads a data set names time (a reaction reads it)
+            "none"     nothing names time (autonomous model)
+    Initial assignments may keep naming time (they are evaluated once, at time 0).  The result is again a complete
+    acyclic well-formed description (new components only name base values or each other in dependency order)."""
+    from harness import fnlib
+
+    d = copy_desc(desc)
+    fresh = _fresh_from(d)
+    plain_p = [n for n, v in d["par"] if v[0] == "plain"]
+    variables = [n for n, _ in d["var"]]
+    base = plain_p + [n for n, v in d["var"] if v[0] == "plain"]
+
+    def sub(args):
+        return [rng.choice(plain_p) if a == 0 else a for a in args]
+
+    def sub_coef(c):
+        return ("dyn", c[1], sub(c[2])) if c[0] == "dyn" else c
+
+    d["der"] = [(n, f, sub(a)) for n, f, a in d["der"]]
+    d["rxn"] = [(n, f, sub(a), [(c, sub_coef(cf)) for c, cf in st]) for n, f, a, st in d["rxn"]]
+    d["sur"] = [(n, mf, sub(a), outs, [(o, [(c, sub_coef(cf)) for c, cf in ent]) for o, ent in st]) for n, mf, a, outs, st in d["sur"]]
+    d["ro"] = [(n, f, sub(a)) for n, f, a in d["ro"]]
+    if where == "none":
+        return d
+    if where == "sur":
+        if d["sur"] and rng.random() < 0.6:
+            i = rng.randrange(len(d["sur"]))
+            n, mf, a, outs, st = d["sur"][i]
+            a = list(a)
+            a[rng.randrange(len(a))] = 0
+            d["sur"][i] = (n, mf, a, outs, st)
+            outs_all = list(outs)
+        else:
+            mf = rng.randrange(len(fnlib.MULTI))
+            a = [rng.choice(base) for _ in range(fnlib.MULTI_ARITY[mf])]
+            a[rng.randrange(len(a))] = 0
+            n = fresh()
+            outs_all = [fresh() for _ in range(fnlib.MULTI_OUT[mf])]
+            st = [(outs_all[0], [(rng.choice(variables), ("stat", rng.choice([-1, 1, 2])))])]
+            d["sur"].append((n, mf, a, outs_all, st))
+        # something downstream of the time-reading surrogate: a derived quantity and a reaction on it
+        dn = fresh()
+        d["der"].append((dn, rng.choice(fnlib.BY_ARITY[2]), [rng.choice(outs_all), rng.choice(base)]))
+        d["rxn"].append((fresh(), rng.choice(fnlib.BY_ARITY[1]), [dn], [(rng.choice(variables), ("stat", rng.choice([-2, 1, 3])))]))
+    elif where == "coef":
+        cf = ("dyn", rng.choice(fnlib.BY_ARITY[2]), [0, rng.choice(plain_p)]) if rng.random() < 0.5 else ("dyn", rng.choice(fnlib.BY_ARITY[1]), [0])
+        if d["rxn"] and rng.random() < 0.7:
+            i = rng.randrange(len(d["rxn"]))
+            n, f, a, st = d["rxn"][i]
+            tgt = rng.choice(variables)
+            st = [(c, x) for c, x in st if c != tgt] + [(tgt, cf)]
+            d["rxn"][i] = (n, f, a, st)
+        else:
+            d["rxn"].append((fresh(), rng.choice(fnlib.BY_ARITY[1]), [rng.choice(base)], [(rng.choice(variables), cf)]))
+    elif where == "data_der":
+        if not d["dat"]:
+            d["dat"].append((fresh(), rng.randint(-2, 2)))
+        dn = fresh()
+        d["der"].append((dn, rng.choice(fnlib.BY_ARITY[2]), [d["dat"][0][0], 0]))
+        d["rxn"].append((fresh(), rng.choice(fnlib.BY_ARITY[2]), [dn, rng.choice(base)], [(rng.choice(variables), ("stat", rng.choice([-1, 2])))]))
+    else:
+        raise ValueError(where)
+    return d
+
+
+def reads_time(desc: dict) -> dict[str, bool]:
+    """Which kinds of component name `time` directly."""
+    return {
+        "der": any(0 in a for _, _, a in desc["der"]),
+        "rxn": any(0 in a for _, _, a, _ in desc["rxn"]),
+        "sur": any(0 in s[2] for s in desc["sur"]),
+        "coef": any(c[0] == "dyn" and 0 in c[2] for _, st in Oracle(desc).flux_entries() for _, c in st),
+    }
+
+
+# ---- declaration orders -----------------------------------------------------------------
+
+
+def decl_items(desc: dict) -> list[tuple[str, int]]:
+    """(kind, name) of every declared item (readouts excluded: they are not part of the dependency graph)."""
+    out = []
+    for k in ("dat", "par", "var", "der", "rxn", "sur"):
+        out += [(k, it[0]) for it in desc[k]]
+    return out
+
+
+def reorder(desc: dict, seq: list[tuple[str, int]]) -> dict:
+    """The description whose per-kind lists follow the global declaration sequence `seq`."""
+    d = copy_desc(desc)
+    for k in ("dat", "par", "var", "der", "rxn", "sur"):
+        by = {it[0]: it for it in desc[k]}
+        d[k] = [by[n] for kk, n in seq if kk == k]
+        assert len(d[k]) == len(desc[k])
+    return d
+
+
+def build_ordered(desc: dict, seq: list[tuple[str, int]]) -> Any:
+    """Build through the public API, adding the items one by one in the order `seq` (kinds interleaved)."""
+    from mxlpy import Model
+
+    m = Model()
+    by = {k: {it[0]: it for it in desc[k]} for k in ("dat", "par", "var", "der", "rxn", "sur")}
+    for k, n in seq:
+        it = by[k][n]
+        if k == "dat":
+            m.add_data(nm(n), it[1])
+        elif k == "par":
+            m.add_parameter(nm(n), py_valia(it[1]))
+        elif k == "var":
+            m.add_variable(nm(n), py_valia(it[1]))
+        elif k == "der":
+            m.add_derived(nm(n), fn=fnlib.FNS[it[1]], args=[nm(a) for a in it[2]])
+        elif k == "rxn":
+            m.add_reaction(nm(n), fn=fnlib.FNS[it[1]], args=[nm(a) for a in it[2]], stoichiometry={nm(c): py_coef(cf) for c, cf in it[3]})
+        else:
+            m.add_surrogate(nm(n), py_surrogate(it))
+    for n, fid, args in desc["ro"]:
+        m.add_readout(nm(n), fn=fnlib.FNS[fid], args=[nm(a) for a in args])
+    return m
+
+
+# ---- the dependency graph of a description, judged independently (Kahn; no code shared with the sorter) ------
+
+
+def graph_components(desc: dict) -> list[tuple[int, list[int], list[int]]]:
+    """(component name, names it requires, names it provides) for everything `_create_cache` has to order:
+    initial assignments, derived quantities, reactions, surrogates (which provide their OUTPUTS, not their name)."""
+    out = []
+    for n, v in desc["var"] + desc["par"]:
+        if v[0] == "ia":
+            out.append((n, list(v[2]), [n]))
+    out += [(n, list(a), [n]) for n, _, a in desc["der"]]
+    out += [(n, list(a), [n]) for n, _, a, _ in desc["rxn"]]
+    out += [(s[0], list(s[2]), list(s[3])) for s in desc["sur"]]
+    return out
+
+
+def graph_outcome(desc: dict) -> tuple:
+    """("ok",) | ("missing", {component: sorted names that do not exist}) | ("circular", [components on/behind a cycle])"""
+    comps = graph_components(desc)
+    base = {0} | {n for n, v in desc["par"] if v[0] == "plain"} | {n for n, v in desc["var"] if v[0] == "plain"} | {n for n, _ in desc["dat"]}
+    exists = set(base)
+    for _, _, prov in comps:
+        exists |= set(prov)
+    missing = {n: sorted(set(req) - exists) for n, req, _ in comps if set(req) - exists}
+    if missing:
+        return ("missing", missing)
+    have, left, progress = set(base), list(comps), True
+    while left and progress:
+        progress = False
+        for c in list(left):
+            if set(c[1]) <= have:
+                have |= set(c[2])
+                left.remove(c)
+                progress = True
+    return ("circular", sorted(c[0] for c in left)) if left else ("ok",)
+
+
+def rewire(desc: dict, kind: str, name: int, new_args: list[int]) -> dict:
+    """Copy of desc in which component `name` (kind: der | rxn | sur | iapar | iavar) names `new_args` instead."""
+    d = copy_desc(desc)
+    if kind == "der":
+        d["der"] = [(n, f, list(new_args) if n == name else a) for n, f, a in desc["der"]]
+    elif kind == "rxn":
+        d["rxn"] = [(n, f, list(new_args) if n == name else a, st) for n, f, a, st in desc["rxn"]]
+    elif kind == "sur":
+        d["sur"] = [(n, mf, list(new_args) if n == name else a, o, st) for n, mf, a, o, st in desc["sur"]]
+    elif kind == "iapar":
+        d["par"] = [(n, ("ia", v[1], list(new_args)) if n == name else v) for n, v in desc["par"]]
+    elif kind == "iavar":
+        d["var"] = [(n, ("ia", v[1], list(new_args)) if n == name else v) for n, v in desc["var"]]
+    else:
+        raise ValueError(kind)
+    return d
+
+
+def apply_rewire(m: Any, desc: dict, kind: str, name: int, new_args: list[int]) -> None:
+    """The same edit on the real model, through the public update_* API (args only; the function is kept)."""
+    from mxlpy.types import InitialAssignment
+
+    a = [nm(x) for x in new_args]
+    if kind == "der":
+        m.update_derived(nm(name), args=a)
+    elif kind == "rxn":
+        m.update_reaction(nm(name), args=a)
+    elif kind == "sur":
+        m.update_surrogate(nm(name), args=a)
+    elif kind == "iapar":
+        fid = dict(desc["par"])[name][1]
+        m.update_parameter(nm(name), InitialAssignment(fn=fnlib.FNS[fid], args=a))
+    elif kind == "iavar":
+        fid = dict(desc["var"])[name][1]
+        m.update_variable(nm(name), InitialAssignment(fn=fnlib.FNS[fid], args=a))
+    else:
+        raise ValueError(kind)
+
+
+def rewirable(desc: dict) -> list[tuple[str, int, list[int]]]:
+    """(kind, name, current args) of every component with at least one argument."""
+    out = [("der", n, list(a)) for n, _, a in desc["der"] if a]
+    out += [("rxn", n, list(a)) for n, _, a, _ in desc["rxn"] if a]
+    out += [("sur", s[0], list(s[2])) for s in desc["sur"] if s[2]]
+    out += [("iapar", n, list(v[2])) for n, v in desc["par"] if v[0] == "ia" and v[2]]
+    out += [("iavar", n, list(v[2])) for n, v in desc["var"] if v[0] == "ia" and v[2]]
+    return out
